@@ -23,8 +23,7 @@ pub fn run(ctx: &Ctx) -> &'static str {
         || faultsim::strategy(horizon),
         |_| |c: &faultsim::Case, o: &mut Obs| faultsim::check(c, o, Which::C08, ctx),
     );
-    if ctx.tier == crate::rt::Tier::Thorough {
-        crate::props::e2e::run(ctx, crate::props::e2e::Phase::Recovery, 3);
-    }
+    // real reader tasks, socket re-open and reader restart, the timeout as configured at run time
+    crate::props::e2e::run(ctx, crate::props::e2e::Phase::Recovery, ctx.tier.pick(1, 3));
     "fault_enumeration"
 }
